@@ -229,6 +229,46 @@ func casesEngines(c *caseCtx) {
 			}
 		}
 
+		// correspondence with the model of the engines (Model/Engines.v): evaluation terms, the ordered
+		// plausible-move list and the considerable-move predicate, on the position as set up (no history)
+		if len(moves) == 0 {
+			func() {
+				defer func() { _ = recover() }()
+				p0 := b.Position()
+				t0 := b.Turn()
+				var ents, cons []string
+				for _, m := range legal {
+					ents = append(ents, fmt.Sprintf("%s/%s/%s", moveTok(m), b01(bernstein.IsMoveSafe(p0, t0, m)), b01(bernstein.IsSafe(p0, t0, m.Piece, m.From))))
+					fb := b.Fork()
+					if fb.PushMove(m) {
+						cons = append(cons, b01(turochamp.IsConsiderableMove(m, fb)))
+					} else {
+						cons = append(cons, "0")
+					}
+				}
+				terms := func(side board.Color) string {
+					return fmt.Sprintf("%d,%d,%d,%d,%d,%d", bernstein.Material(p0, side), bernstein.Mobility(p0, side), bernstein.Control(p0, side), bernstein.KingDefense(p0, side), bernstein.Evaluate(p0, 20, side), bernstein.Evaluate(p0, 0, side))
+				}
+				var pms []string
+				for _, m := range bernstein.FindPlausibleMoves(b) {
+					pms = append(pms, moveTok(m))
+				}
+				dash := func(l []string, sep string) string {
+					if len(l) == 0 {
+						return "-"
+					}
+					return strings.Join(l, sep)
+				}
+				tm := turochamp.Material{}.Evaluate(ctx, b)
+				tbits := "0"
+				if tm != 0 {
+					tbits = fmt.Sprintf("%x", math.Float32bits(float32(tm)))
+				}
+				c.emit("engines %s %d :: %s => mat=%d turo=%s bern=%s/%s plaus=%s consid=%s", posTok(p0), t0, dash(ents, ";"),
+					int(eval.Material{}.Evaluate(ctx, b)), tbits, terms(t0), terms(t0.Opponent()), dash(pms, ";"), dash(cons, ""))
+			}()
+		}
+
 		// filters
 		isLegal := map[board.Move]bool{}
 		nonUnder := 0
